@@ -96,7 +96,7 @@ func init() {
 				W:       weights(Weights{"commit": 16, "reset": 14, "rename-reset": 4, "hard-rmdir": 5, "edit-same-size": 8, "switch": 3, "switch-c": 2, "rmdir": 4, "rmfile": 5, "junk": 0}),
 				Oracles: []HistOracle{orC08}, PreReset: true}
 		})
-	checks["C09"] = histCheck("C09", []string{"C09.world_restore_files", "C09.restore_only_tracked", "C09.world_restore_frame", "C09.world_restore_staged_frame", "C09.restore_named", "C09.restore_unknown_refused", "C06.isDir_iff", "C06.mem_byDir", "C06.getEntry_correct", "C04.update_membership", "C04.delete_exact", "C09.restoreStaged_exact", "C09.restoreStaged_unknown_refused", "C09.restoreIndexOne_spec", "C09.restoreIndexOne_refused_iff", "C09.rsFold_spec"}, histRule,
+	checks["C09"] = histCheck("C09", []string{"C09.world_restore_staged_exact", "C09.world_restore_files", "C09.restore_only_tracked", "C09.world_restore_frame", "C09.world_restore_staged_frame", "C09.restore_named", "C09.restore_unknown_refused", "C06.isDir_iff", "C06.mem_byDir", "C06.getEntry_correct", "C04.update_membership", "C04.delete_exact", "C09.restoreStaged_exact", "C09.restoreStaged_unknown_refused", "C09.restoreIndexOne_spec", "C09.restoreIndexOne_refused_iff", "C09.rsFold_spec"}, histRule,
 		func(ctx *Ctx) *HistCfg {
 			return &HistCfg{Prop: "C09", Cases: tierN(ctx, 200, 2000), MinSteps: 10, MaxSteps: 35,
 				W:       weights(Weights{"restore": 20, "commit": 8, "rmfile": 8, "rmdir": 5, "write": 16, "add": 14, "rm": 4, "fd-swap": 4, "edit-same-size": 4, "twins": 5, "restore-dir-probe": 6, "restore-family-probe": 6, "junk": 0}),
